@@ -15,14 +15,18 @@ def run(rep, kf, tier, seed):
     import contracts.responses_c as crc
     import contracts.refs as crefs
     import contracts.endpoint_from_data as cefd
-    engine_b.discharge(rep, kf, [crefs.update_schemas_contract(), cefd.from_data_contract()], "C07", tier, seed)
+    import contracts.collection_ind as cci
+    engine_b.discharge(rep, kf, [crefs.update_schemas_contract(), cefd.from_data_contract(), cci.from_data_inductive_contract()],
+                       "C07", tier, seed)
     engine_b.discharge(rep, kf, creg.all_contracts() + cfp.all_contracts() + [cap.add_parameters_contract(), crc.response_contract()],
                        "C07", tier, seed)
     run_bounded(rep, kf, "C07", ["body_media", "enum_values", "model_properties", "param_conflicts", "name_collision", "body_refs", "schema_accounting"], tier)
     rep.trusted.append("pyvc Engine B")
     rep.assumptions.extend([
-        "per-iteration accounting of EndpointCollection.from_data / _add_responses / _create_schemas is covered by bounded "
-        "stand-ins (labelled), not by inductive invariants",
+        "EndpointCollection.from_data: inductive contract for any number of path items / operations / tags under the default "
+        "generate_all_tags=False (Endpoint.from_data, add_parameters, sort_parameters by summaries: may fail or succeed, the "
+        "Schemas they return only grows); generate_all_tags=True only by the fixed-shape contract (one path item, two operations)",
+        "_add_responses: per-response accounting by a fixed-shape contract and bounded stand-ins",
         "known gap (finding): two operations / schemas whose derived file names coincide overwrite each other (C07-K1)",
     ])
     return {"level": "proof"}
